@@ -166,3 +166,41 @@ def wallet_position(ex, labels):
         claims["probe_found_where_it_is"] = sand(r[0] in scripts, r[1] == 0, scripts[r[0]] == probe if r[0] in scripts else False)
     return claims
 
+
+
+# ------------------------------------------------------------------ KEY expressions: which BIP32 path is derived at an index
+from btclib.descriptors import key_expression as _ke
+
+
+@ob("C14", "key_expression_derives_path_then_wildcard_plus_index", quick=[dict(kind=k, path=p, wild=w) for k in ("xkey", "musig") for p in ([], [0], [1, 2]) for w in (None, 0, 0x80000000)],
+    bound="an extended-key and a musig() KEY expression with a fixed path of 0..2 steps and no wildcard, an unhardened one or a hardened one; index symbolic over 0..2^31-1: the key is derived "
+          "along the fixed path followed by wildcard + index (BIP380 / BIP328), and a musig() without any step answers the aggregate key itself",
+    stubs=["derive_, pub_keyinfo_from_key and KeyExpression.aggregate are abstract: they record the path they are asked for"],
+    functions=["btclib.descriptors.key_expression.KeyExpression.sec"], min_ok=1, timeout=300)
+def key_expression_path(ex, kind, path, wild):
+    index = ex.int("index", 0, 0x7FFFFFFF)
+    seen = {}
+
+    def fake_derive(xkey, der_path, *a, **k):
+        seen["path"] = list(der_path)
+        seen["from"] = xkey
+        return ("derived", xkey)
+
+    ex.stub(_ke.derive_, fake_derive)
+    ex.stub(_ke.pub_keyinfo_from_key, lambda key, network=None, *a, **k: (key, network))
+    if kind == "musig":
+        part = _ke.KeyExpression(pub_key=b"\x02" + b"\x11" * 32)
+        key = _ke.KeyExpression(participants=(part, part), der_path=tuple(path), wildcard=wild)
+        # symbolic mode matches the bound method by equality, the concrete twin patches the class attribute
+        ex.stub(key.aggregate, lambda *a, **k: b"\x02" + b"\x77" * 32, owner=_ke.KeyExpression, attr="aggregate")
+    else:
+        key = _ke.KeyExpression(xkey="xpub-stub", der_path=tuple(path), wildcard=wild)
+    got = key.sec(index, "mainnet", None)
+    want = list(path) + ([wild + index] if wild is not None else [])
+    if kind == "musig" and not want:
+        return {"bare_musig_is_the_aggregate": sand("path" not in seen, got == b"\x02" + b"\x77" * 32)}
+    claims = {"derived_once": "path" in seen}
+    if "path" in seen:
+        claims["path_is_fixed_steps_then_wildcard_plus_index"] = sand(len(seen["path"]) == len(want), *[a == b for a, b in zip(seen["path"], want)]) if len(seen["path"]) == len(want) else False
+        claims["ranged_iff_wildcard"] = key.is_ranged == (wild is not None)
+    return claims
